@@ -524,9 +524,9 @@ def run_prop(prop: str, run: core.Run) -> None:
         run_raw(run, prop, 300 if quick else 6000)
     else:
         run.rule = "every result of parse, &, |, only, exclude over random markers, plus Empty/Any operands"
-        run_shape(run, prop, 260 if quick else 8000)
+        run_shape(run, prop, 260 if quick else 2500)
         if prop == "C15":
-            run_raw(run, prop, 300 if quick else 6000)
+            run_raw(run, prop, 300 if quick else 2500)
 
 
 def wide_envs(texts, rng):
